@@ -296,6 +296,16 @@ impl WorldB {
                 }
                 // C08: deduction
                 if is_sk && !is_admin {
+                    // everything the call relays in bank sends, whether covered or not
+                    let mut sent: BTreeMap<String, u128> = BTreeMap::new();
+                    for m in &msgs {
+                        if let CosmosMsg::Bank(BankMsg::Send { amount, .. }) = m {
+                            for c in amount {
+                                let e = sent.entry(c.denom.clone()).or_insert(0);
+                                *e = e.saturating_add(c.amount.u128());
+                            }
+                        }
+                    }
                     if let Some(i) = si {
                         let mut rem: BTreeMap<String, u128> = pre.allow[i].0.iter().map(|c| (c.denom.clone(), c.amount.u128())).collect();
                         let mut ok = !expired(&pre.allow[i].1, &f.block) || sent.is_empty();
@@ -307,8 +317,15 @@ impl WorldB {
                                 *r -= *a;
                             }
                         }
-                        if !ok && cov {
-                            self.viol(out, "C08", "spend-beyond-allowance", json!({}), format!("subkey relayed {:?} with allowance {:?}", sent, pre.allow[i]));
+                        if !sent.is_empty() && (!ok || !cov) {
+                            // the allowance as the contract itself reports it (expired ones read empty) does not cover the sends
+                            self.viol(
+                                out,
+                                "C08",
+                                "spend-beyond-unexpired-allowance",
+                                json!({"reported_allowance_empty": pre.allow[i].0.is_empty()}),
+                                format!("subkey relayed {:?} while its reported (unexpired) allowance was {:?}", sent, pre.allow[i]),
+                            );
                         }
                         if !sent.is_empty() || cov {
                             exp_allow[i].0 = rem.into_iter().filter(|(_, a)| *a != 0).map(|(d, a)| Coin::new(a, d)).collect();
@@ -962,6 +979,51 @@ impl World for WorldB {
                 } else {
                     self.queue.push_back(admin_step);
                     return spend_step;
+                }
+            }
+        }
+        if rng.chance(1, 12) {
+            // F3: put a subkey's spend exactly on / around the expiry of its allowance
+            let b = self.chain.block();
+            let mut live: Vec<(String, Coin, Expiration)> = vec![];
+            if let Some(s) = self.last.get("sk") {
+                for (i, u) in self.universe.iter().enumerate() {
+                    if self.users.contains(u) && !s.admins.contains(u) {
+                        if let Some((c, e)) = s.allow.get(i).and_then(|a| a.0.first().cloned().map(|c| (c, a.1))) {
+                            if !matches!(e, Expiration::Never {}) {
+                                live.push((u.clone(), c, e));
+                            }
+                        }
+                    }
+                }
+            }
+            if !live.is_empty() {
+                let (sub, c, e) = rng.pick(&live).clone();
+                let off = *rng.pick(&[0u64, 0, 1, 2]); // expiry-1, expiry, expiry, expiry+1  (as target = e + off - 1)
+                let jump = match e {
+                    Expiration::AtHeight(h) => {
+                        let target = (h + off).saturating_sub(1);
+                        if target > b.height { Some(Step::Block { dh: target - b.height, dt: (target - b.height).saturating_mul(self.cfg.spb) }) } else { None }
+                    }
+                    Expiration::AtTime(t) => {
+                        let target = (t.seconds() + off).saturating_sub(1);
+                        if target > b.time.seconds() { Some(Step::Block { dh: 1, dt: target - b.time.seconds() }) } else { None }
+                    }
+                    _ => None,
+                };
+                if let Some(j) = jump {
+                    let to = rng.pick(&self.universe).clone();
+                    let amt = (c.amount.u128() / 2).max(1);
+                    self.queue.push_back(Step::Tx {
+                        sender: sub,
+                        target: "sk".into(),
+                        msg: json!({"execute":{"msgs":[cm(&CosmosMsg::Bank(BankMsg::Send { to_address: to, amount: vec![Coin::new(amt, c.denom.clone())] }))]}}),
+                        funds: vec![],
+                        fault: None,
+                        script: vec![],
+                    });
+                    self.meter.hit("spend_scheduled_around_allowance_expiry");
+                    return j;
                 }
             }
         }
